@@ -205,6 +205,29 @@ def spline_part(rep, rng, quick):
                                   {**info, "mask": masks.astype(int).tolist()})
             except Exception as e:  # noqa: BLE001
                 rep.violation(f"irregular to_basis / smooth(PS) raised {type(e).__name__}: {e}"[:300], {**info, "mask": masks.astype(int).tolist()})
+            # the same curves in the sparsifier's encoding (common grid, NaN at the missing cells): changing representation must
+            # leave the dataset it was asked about exactly as it was (the missing cells stay missing), and give the same expansion
+            irn = fd.irregular([t.copy() for _ in range(n)], [np.where(masks[k], X[k], np.nan) for k in range(n)])
+            try:
+                keys = list(irn.values.keys())
+                before = [np.array(irn.values[k], dtype=float, copy=True) for k in keys]
+                with warnings.catch_warnings():
+                    warnings.simplefilter("ignore")
+                    an = np.asarray(irn.to_basis(penalty=2.0, **kw).to_grid().values, float)
+                after = [np.asarray(irn.values[k], dtype=float) for k in keys]
+                rep.case(("to_basis-irregular-nan", X.tobytes(), nseg, deg), kind="to_basis/irregular-NaN-encoding")
+                changed = sum(int(np.sum(~((b == a) | (np.isnan(b) & np.isnan(a))))) for b, a in zip(before, after))
+                if list(irn.values.keys()) != keys or changed:
+                    rep.violation(f"to_basis changed the irregular dataset it was called on: {changed} stored cells differ afterwards "
+                                  f"({sum(int(np.isnan(b).sum()) for b in before)} missing cells before, "
+                                  f"{sum(int(np.isnan(a).sum()) for a in after)} after)", {**info, "mask": masks.astype(int).tolist()})
+                elif "ai" in locals() and (an.shape != ai.shape or not np.all(np.isfinite(an))
+                                           or np.max(np.abs(an - ai)) > 1e-7 * max(1.0, np.max(np.abs(X)))):
+                    rep.violation("irregular data: the expansion of the NaN-on-common-grid encoding differs from the expansion of the "
+                                  f"per-curve encoding of the same samples by {np.max(np.abs(an - ai)) if an.shape == ai.shape else 'shape'}",
+                                  {**info, "mask": masks.astype(int).tolist()})
+            except Exception as e:  # noqa: BLE001
+                rep.violation(f"irregular (NaN-encoded) to_basis raised {type(e).__name__}: {e}"[:300], {**info, "mask": masks.astype(int).tolist()})
         # curves in the spline space, zero penalty: curves and coefficients are returned exactly
         with warnings.catch_warnings():
             warnings.simplefilter("ignore")
